@@ -327,6 +327,16 @@ class IntroVisitor(ast.NodeVisitor):
         # _logger.debug(f"visit_call: call name is {n}")
         if n is not None:
             self._store_names.add(n)
+        # Python evaluates the arguments before the call: the calls written inside the argument list
+        # (dds.keep(path, f, g()) or f(g())) are interactions that come before this one, and it depends on them.
+        arg_nodes: List[ast.AST] = list(node.args) + list(node.keywords)
+        early_args = [
+            a
+            for a in arg_nodes
+            if any(isinstance(x, ast.Call) for x in ast.walk(a))
+        ]
+        for a in early_args:
+            self.visit(a)
         # This is a bit brute-force (not working for multi-line function calls)
         # but it should be good enough in practice for most cases.
         # TODO: refine it based of the nested parse tree?
@@ -361,7 +371,10 @@ class IntroVisitor(ast.NodeVisitor):
                     f" (or is not produced at all). A path must be kept before it is loaded."
                 )
             self.load_paths.append(fi_or_p)
-        self.generic_visit(node)
+        self.visit(node.func)
+        for a in arg_nodes:
+            if not any(a is e for e in early_args):
+                self.visit(a)
 
     def visit_Assign(self, node: ast.Assign) -> Any:
         targets = get_assign_targets(node)
